@@ -27,6 +27,7 @@ typedef struct item {
 	int child;
 } item_t;
 
+static int g_forms = 1;
 static int NT = 3, g_execs = 10, g_ops = 30, g_W = 1, g_Wreq = 1, g_susp = 1, g_inact = 0, g_pp = 1, g_nest = 1;
 static uint64_t g_seed;
 static dispatch_queue_t g_q;
@@ -69,14 +70,39 @@ static void item_fn(void *ctxt);
 static void submit(item_t *it)
 {
 	it->call_seq = vrt_api("Call", g_obj, it->id, it->kind, 0);
-	switch (it->kind) {
-	case K_ASYNC: dispatch_async_f(g_q, it, item_fn); break;
-	case K_BASYNC: dispatch_barrier_async_f(g_q, it, item_fn); break;
-	case K_SYNC: dispatch_sync_f(g_q, it, item_fn); break;
-	case K_BSYNC: dispatch_barrier_sync_f(g_q, it, item_fn); break;
-	case K_AAW: dispatch_async_and_wait_f(g_q, it, item_fn); break;
-	case K_BAAW: dispatch_barrier_async_and_wait_f(g_q, it, item_fn); break;
-	case K_GASYNC: dispatch_group_async_f(g_grp, g_q, it, item_fn); break;
+	/* every submission form of the API reaches the same queue machine: function + context, plain block, block
+	 * object with private data (dispatch_block_create), and for barriers also dispatch_async of a BARRIER-flagged
+	 * block object */
+	unsigned form = g_forms ? (unsigned)(vrt_rand() % 10) : 0;
+	if (form < 6) {
+		switch (it->kind) {
+		case K_ASYNC: dispatch_async_f(g_q, it, item_fn); break;
+		case K_BASYNC: dispatch_barrier_async_f(g_q, it, item_fn); break;
+		case K_SYNC: dispatch_sync_f(g_q, it, item_fn); break;
+		case K_BSYNC: dispatch_barrier_sync_f(g_q, it, item_fn); break;
+		case K_AAW: dispatch_async_and_wait_f(g_q, it, item_fn); break;
+		case K_BAAW: dispatch_barrier_async_and_wait_f(g_q, it, item_fn); break;
+		case K_GASYNC: dispatch_group_async_f(g_grp, g_q, it, item_fn); break;
+		}
+	} else {
+		dispatch_block_t plain = ^{ item_fn(it); };
+		dispatch_block_t b = plain, made = NULL;
+		int viaflag = 0;
+		if (form >= 8) {
+			viaflag = (it->kind == K_BASYNC || it->kind == K_BSYNC) && (vrt_rand() & 1);
+			made = dispatch_block_create(viaflag ? DISPATCH_BLOCK_BARRIER : 0, plain);
+			b = made;
+		}
+		switch (it->kind) {
+		case K_ASYNC: dispatch_async(g_q, b); break;
+		case K_BASYNC: if (viaflag) dispatch_async(g_q, b); else dispatch_barrier_async(g_q, b); break;
+		case K_SYNC: dispatch_sync(g_q, b); break;
+		case K_BSYNC: if (viaflag) dispatch_sync(g_q, b); else dispatch_barrier_sync(g_q, b); break;
+		case K_AAW: dispatch_async_and_wait(g_q, b); break;
+		case K_BAAW: dispatch_barrier_async_and_wait(g_q, b); break;
+		case K_GASYNC: dispatch_group_async(g_grp, g_q, b); break;
+		}
+		if (made) _Block_release(made);
 	}
 	it->ret_seq = vrt_api("Ret", g_obj, it->id, it->kind, 0);
 	if (it->kind >= K_SYNC && it->kind != K_GASYNC) {
@@ -152,6 +178,22 @@ static void susp_pair(int depth)
 	vrt_progress();
 }
 
+/* susp = 2: "nesting storm".  Nesting depths are drawn around the capacities of the inline suspend count (63) and of
+ * the transfer unit (32), and a thread inside _dispatch_lane_{suspend,resume}_slow is held for a few ms at its
+ * accesses to dq_state (it owns the side lock, not the state word) so that fast-path suspends and resumes of other
+ * threads land inside the transfer: the overflow / underflow give-ups of the slow paths become reachable. */
+static int storm_depth(void)
+{
+	static const int around[] = { 31, 32, 33, 34, 62, 63, 64, 65, 66, 95, 96, 97, 127, 128, 129 };
+	unsigned r = (unsigned)(vrt_rand() % 24);
+	return r < 15 ? around[r] : 2 + (int)(vrt_rand() % 140);
+}
+static void storm_steer(struct dispatch_verif_site_s *s, const volatile void *a, int obj)
+{
+	(void)a; (void)obj;
+	if (strstr(s->dvs_func, "_slow") && strstr(s->dvs_expr, "dq_state") && (vrt_rand() & 1)) usleep(300 + (unsigned)(vrt_rand() % 2500));
+}
+
 static void *client(void *arg)
 {
 	long me = (long)arg;
@@ -162,6 +204,7 @@ static void *client(void *arg)
 			unsigned k = (unsigned)(vrt_rand() % 100);
 			int body = (vrt_rand() % 4 == 0) ? B_SPIN : B_NONE;
 			item_t *it = NULL;
+			if (g_susp == 2 && vrt_rand() % 100 < 40) { susp_pair(storm_depth()); continue; }
 			if (g_W == 1) {
 				if (k < 26) it = new_item(K_ASYNC, (int)me, body);
 				else if (k < 34) it = new_item(K_GASYNC, (int)me, body);
@@ -358,6 +401,7 @@ int main(int argc, char **argv)
 	vrt_add_class("dq_items_head", 2);
 	vrt_add_class("do_next", 2);
 	vrt_set_hang_seconds(25);
+	if (g_susp == 2) vrt_set_steer(storm_steer);
 	(void)vrt_tid();
 	pthread_barrier_init(&g_bar, NULL, (unsigned)NT + 1);
 	pthread_t th[16], rth;
